@@ -104,11 +104,31 @@ var moduleName = regexp.MustCompile(`\b(module|submodule|import|belongs-to|inclu
 // every node must be attributed to the module that carries its namespace there - nothing the
 // library learnt about a namespace from another module set may show.
 func twin(w *ir.World) *fail {
+	if f := twinIn(w, false); f != nil {
+		return f
+	}
+	return twinIn(w, true)
+}
+
+var namespaceArg = regexp.MustCompile(`namespace "urn:([^"]*)"`)
+
+// twinIn: together = false loads the renamed texts into a set of their own; together = true loads
+// them next to the original texts into one set, with namespaces that differ from the originals' in
+// nothing but the case of their letters ("URN:A" next to "urn:a"): two namespaces that a careless
+// comparison takes for one.
+func twinIn(w *ir.World, together bool) *fail {
 	var f *fail
 	pan, pt := core.Guard(func() {
 		ms := yang.NewModules()
 		for _, fl := range ircmp.Files(w, w.Order) {
 			text := moduleName.ReplaceAllString(fl.Text, "$1 $2-twin$3")
+			if together {
+				if err := ms.Parse(fl.Text, fl.Name); err != nil {
+					f = &fail{"twin:load-error", "loads", err.Error()}
+					return
+				}
+				text = namespaceArg.ReplaceAllStringFunc(text, func(m string) string { return `namespace "URN:` + strings.ToUpper(m[len(`namespace "urn:`):]) })
+			}
 			if err := ms.Parse(text, "twin-"+fl.Name); err != nil {
 				f = &fail{"twin:load-error", "loads", err.Error()}
 				return
